@@ -27,7 +27,10 @@ ALPHA = ['a', ' ', '\n', '{', '}', '$', '\\begin{x}', '\\end{y}', '[', ']',
          '\\ghost', '\\ghost{z}', '%c\n', '\\', '$$', '\\[', '\\(', '\\item',
          '\\end', '\\end{', '\\begin{N}', '\\begin{itemize}', '\\\\', '\\%', '&',
          '\t', '\n\n', '\\end {N}', 'é', '}}', ']]', '\\textbf', '\\end{Nx}',
-         '\\end{N*}', '\\end{xN}', '\\end{N', '\\end{N }']
+         '\\end{N*}', '\\end{xN}', '\\end{N', '\\end{N }',
+         # inline-verbatim spellings, definitions, sizing, CR line ends
+         '\\verb|', '\\verb+{', '\\verb', '\\verb*!$', '|', '+', '\\def\\x', '\\newcommand{',
+         '\\left(', '\\big', '\\label{', '#1', '~', '\r\n', '\r', '\\section{', '\\cup[']
 OUTER = [('', ''), ('pre \\keep{1} ', ' post \\keep{2}'),
          ('\\begin{center}c ', ' d\\end{center}'),
          ('\\begin{a}\\begin{b}[o]{r}', '\\end{b} t\\end{a}'),
